@@ -204,6 +204,29 @@ def r13c(ctx, rep, rule="R13c"):
             rep.ok(rule, key, "the budget-exhausted path (%d block(s) after the last loop exit) only collects and returns" % len(region), [fn.span])
 
 
+def _prepare_resets(facts, cg):
+    """does prepare_eval reset the stack pointer on every path from a successful compilation to the write of ip? (R12l's clause)"""
+    f = facts.fns.get("marwood::vm::Vm::prepare_eval")
+    if f is None:
+        return False
+    resetting = set()
+    for bb, t in f.calls():
+        c = callee(t)
+        if c in facts.fns and "Stack.sp" in field_writes(facts, cg, c):
+            resetting.add(bb)
+        if c == STACK + "get_sp_mut":
+            dest = t["dest"]["l"]
+            for b2, j, s_ in f.stmts():
+                if s_["lhs"]["l"] == dest and s_["lhs"]["p"] and s_["lhs"]["p"][0] == "*":
+                    resetting.add(b2)
+    ipw = [bb for bb, j, s_ in f.stmts() if s_["lhs"]["l"] == 1 and [e.get("n") for e in s_["lhs"]["p"] if isinstance(e, dict)][:1] == ["ip"]]
+    comp = [t for bb, t in f.calls() if (callee(t) or "").endswith("compile_runnable")]
+    if not ipw or not comp or comp[0].get("target") is None:
+        return False
+    reach = f.reach_from(comp[0]["target"], avoid=resetting)
+    return not any(b in reach for b in ipw)
+
+
 def r07a(ctx, rep, rule="R07a"):
     facts, cg = ctx["facts"], ctx["cg"]
     rep.rule(rule, "error exits reset the machine (must-pass-through): every path in run_count from the Err edge of "
@@ -245,7 +268,10 @@ def r07a(ctx, rep, rule="R07a"):
     region = fn.reach_from(tgt, avoid=resetting)
     escaping = [r for r in rets if r in region]
     key = "%s|run_count|err-exit-resets-sp" % rule
-    if escaping:
+    if escaping and _prepare_resets(facts, cg):
+        rep.ok(rule, key, "run_count's error arm does not reset the stack pointer itself, but prepare_eval starts every evaluation "
+               "on an empty stack (R12l): the failed evaluation's frames are gone before anything else runs", [fn.span])
+    elif escaping:
         rep.fail(rule, key, "run_count returns from the error arm without resetting the stack pointer: the failed "
                  "evaluation's frames stay on the stack (later stack traces include them; depth grows with every "
                  "failure; everything they reference stays rooted)", [fn.blocks[tgt]["term"]["loc"]])
